@@ -12,13 +12,33 @@
     has the item's visibility, no parameters, the documented return type and reads exactly the
     address it was given; [C15_emitted_extern_accessor] / [C15_emitted_extern_value]: every extern
     value of a module has, in the module's file, a `get_<name>` accessor with its visibility that
-    casts exactly its address to a `&'static mut <declared type>`. *)
+    casts exactly its address to a `&'static mut <declared type>`. 
+    END TO END FROM THE DECLARATION (EmitAccessors.v, EmitExternOnce.v, EmitSingletonOnce.v), accepted
+    collision-free build, at the end of this file:
+    - [C15_struct_singleton_declared] / [_get] / [_exactly_once]: a type whose last [#[singleton(A)]]
+      is A gets, right after its struct and size check, an inherent impl with exactly one function
+      [get] -- the type's visibility, unsafe, no parameters, [Option<&'static mut Self>] -- whose
+      body reads exactly address A (and RustExec's meaning of that body: None when the word at A is
+      null, else the object it points to); a type without the attribute gets none; no other
+      inherent impl of the type in the file carries a singleton address;
+    - [C15_enum_singleton_declared] / [_get] / [_exactly_once]: the same for enums (the value stored
+      at A, read through a raw pointer);
+    - [C15_negative_singleton_rejected]: a negative value anywhere in the attribute list keeps the
+      build from being accepted;
+    - [C15_extern_accessor_of_declaration]: every declared extern value has its [get_<name>] with
+      the declared visibility, unsafe, no parameters, [&'static mut T], casting exactly the last
+      declared address; [C14_extern_accessors_exactly_once] (in C14.v): the accessors of a file
+      are, with multiplicity, exactly those of the module's declarations;
+    - [C15_extern_without_address_rejected_build]: an input containing an extern value without an
+      address is rejected at registration. *)
 From Coq Require Import List NArith ZArith Bool String Lia.
 From PyxisModel Require Import Base Grammar SemTypes Registry Sem SemLemmas FunctionLemmas
      VftableLemmas RustExec.
 Import ListNotations.
 
 From PyxisModel Require EmitReaders EmitFnReaders EmitFnShape EmitFnFinal.
+
+From PyxisModel Require EmitAccessors EmitExternOnce EmitSingletonOnce.
 
 Definition declared_int (name : string) (attrs : list gattr) : option Z :=
   last_some (int_attr name) attrs None.
@@ -109,3 +129,322 @@ Theorem C15_emitted_extern_value :
       In e items /\ ev_type ev = Some t /\ EmitFnShape.extern_shape ev t e.
 Proof. exact EmitFnFinal.emitted_extern_value. Qed.
 Print Assumptions C15_emitted_extern_value.
+
+Theorem C15_struct_singleton_declared :
+  forall (order : schedule) (ptr : N) (mods : list (path * gmodule)) (st0 st : sstate)
+      (files : list (string * Sexp.sexp)) (p : path) (it0 : item) (gd : gitemdef) 
+      (td0 : gtypedef),
+    WholeBuild.input_state ptr mods = Ok st0 ->
+    NoDup (map fst mods) ->
+    WholeBuild.collision_free (st_reg st0) ->
+    EmitFinal.keeps_work order ->
+    pyxis_resolve order ptr mods = BOk st ->
+    Emit.write_all st = Ok files ->
+    reg_get (st_reg st0) p = Some it0 ->
+    it_state it0 = Unresolved gd ->
+    gi_inner gd = GIType td0 ->
+    path_parent p <> Some [] ->
+    exists
+      (parent : path) (name : string) (it : item) (r : resolved) (f : Sexp.sexp) 
+    (pre : list Sexp.sexp) (s : Sexp.sexp) (sing : list Sexp.sexp) (im : Sexp.sexp) 
+    (fns conv post : list Sexp.sexp),
+      path_parent p = Some parent /\
+      parent <> [] /\
+      path_last p = Some name /\
+      reg_get (st_reg st) p = Some it /\
+      it_state it = Resolved r /\
+      In (Emit.out_path parent, f) files /\
+      EmitReaders.file_items f =
+      Some (pre ++ (s :: Emit.size_check name (rs_size r) ++ sing ++ im :: conv) ++ post) /\
+      EmitReaders.find_struct name
+        (pre ++ (s :: Emit.size_check name (rs_size r) ++ sing ++ im :: conv) ++ post) = 
+      Some s /\
+      im = Emit.impl_sexp (Sexp.Atom "notrait") name fns /\
+      Forall EmitShape.is_impl_or_const conv /\
+      match EmitAccessors.declared_singleton (gt_attrs td0) with
+      | Some A =>
+          (0 <= A)%Z /\
+          (exists e : Sexp.sexp,
+             sing = [e] /\
+             e = Emit.singleton_struct_impl name (gi_vis gd) (Z.to_N A) /\
+             EmitFnShape.singleton_shape name (gi_vis gd) (Z.to_N A) e)
+      | None => sing = []
+      end.
+Proof. exact EmitAccessors.C15_struct_singleton_declared. Qed.
+Print Assumptions C15_struct_singleton_declared.
+
+Theorem C15_struct_singleton_get :
+  forall (order : schedule) (ptr : N) (mods : list (path * gmodule)) (st0 st : sstate)
+      (files : list (string * Sexp.sexp)) (p : path) (it0 : item) (gd : gitemdef) 
+      (td0 : gtypedef) (A : Z),
+    WholeBuild.input_state ptr mods = Ok st0 ->
+    NoDup (map fst mods) ->
+    WholeBuild.collision_free (st_reg st0) ->
+    EmitFinal.keeps_work order ->
+    pyxis_resolve order ptr mods = BOk st ->
+    Emit.write_all st = Ok files ->
+    reg_get (st_reg st0) p = Some it0 ->
+    it_state it0 = Unresolved gd ->
+    gi_inner gd = GIType td0 ->
+    path_parent p <> Some [] ->
+    EmitAccessors.declared_singleton (gt_attrs td0) = Some A ->
+    exists (parent : path) (name : string) (f : Sexp.sexp) (items : list Sexp.sexp) 
+    (e g : Sexp.sexp),
+      path_parent p = Some parent /\
+      path_last p = Some name /\
+      In (Emit.out_path parent, f) files /\
+      EmitReaders.file_items f = Some items /\
+      In e items /\
+      EmitReaders.item_kind e = Some "impl"%string /\
+      EmitFnReaders.inherent_impl e = Some (name, [g]) /\
+      EmitReaders.item_kind g = Some "fn"%string /\
+      EmitFnReaders.fn_name g = Some "get"%string /\
+      EmitFnReaders.fn_vis g = Some (gi_vis gd) /\
+      EmitFnReaders.fn_unsafe g = Some true /\
+      EmitFnReaders.fn_params g = Some [] /\
+      EmitFnReaders.fn_ret g =
+      Some
+        (Emit.tks
+           ["Option"%string; "<"%string; "&"%string; "'"%string; "static"%string; "mut"%string;
+            "Self"%string; ">"%string]) /\
+      (0 <= A)%Z /\
+      EmitFnShape.fn_singleton_addr g = Some (Z.to_N A) /\
+      (forall mem : N -> N,
+       EmitAccessors.struct_get_result mem g =
+       Some (if (mem (Z.to_N A) =? 0)%N then None else Some (mem (Z.to_N A)))).
+Proof. exact EmitAccessors.C15_struct_singleton_get. Qed.
+Print Assumptions C15_struct_singleton_get.
+
+Theorem C15_struct_singleton_exactly_once :
+  forall (order : schedule) (ptr : N) (mods : list (path * gmodule)) (st0 st : sstate)
+      (files : list (string * Sexp.sexp)) (p : path) (it0 : item) (gd : gitemdef) 
+      (td0 : gtypedef),
+    WholeBuild.input_state ptr mods = Ok st0 ->
+    NoDup (map fst mods) ->
+    WholeBuild.collision_free (st_reg st0) ->
+    EmitFinal.keeps_work order ->
+    pyxis_resolve order ptr mods = BOk st ->
+    Emit.write_all st = Ok files ->
+    reg_get (st_reg st0) p = Some it0 ->
+    it_state it0 = Unresolved gd ->
+    gi_inner gd = GIType td0 ->
+    path_parent p <> Some [] ->
+    exists
+      (parent : path) (name : string) (it : item) (r : resolved) (f : Sexp.sexp) 
+    (pre : list Sexp.sexp) (s : Sexp.sexp) (sing : list Sexp.sexp) (im : Sexp.sexp) 
+    (fns conv post : list Sexp.sexp),
+      path_parent p = Some parent /\
+      parent <> [] /\
+      path_last p = Some name /\
+      reg_get (st_reg st) p = Some it /\
+      it_state it = Resolved r /\
+      In (Emit.out_path parent, f) files /\
+      EmitReaders.file_items f =
+      Some (pre ++ (s :: Emit.size_check name (rs_size r) ++ sing ++ im :: conv) ++ post) /\
+      EmitReaders.find_struct name
+        (pre ++ (s :: Emit.size_check name (rs_size r) ++ sing ++ im :: conv) ++ post) = 
+      Some s /\
+      im = Emit.impl_sexp (Sexp.Atom "notrait") name fns /\
+      Forall EmitShape.is_impl_or_const conv /\
+      Forall (fun e : Sexp.sexp => EmitSingletonOnce.impl_named name e = false) pre /\
+      Forall (fun e : Sexp.sexp => EmitSingletonOnce.impl_named name e = false) post /\
+      match EmitAccessors.declared_singleton (gt_attrs td0) with
+      | Some A =>
+          (0 <= A)%Z /\
+          (exists e : Sexp.sexp,
+             sing = [e] /\
+             e = Emit.singleton_struct_impl name (gi_vis gd) (Z.to_N A) /\
+             EmitFnShape.singleton_shape name (gi_vis gd) (Z.to_N A) e)
+      | None => sing = []
+      end /\
+      EmitSingletonOnce.file_singleton_addrs name f =
+      match EmitAccessors.declared_singleton (gt_attrs td0) with
+      | Some A => [Z.to_N A]
+      | None => []
+      end /\ EmitSingletonOnce.file_enum_singleton_addrs name f = [].
+Proof. exact EmitSingletonOnce.C15_struct_singleton_exactly_once. Qed.
+Print Assumptions C15_struct_singleton_exactly_once.
+
+Theorem C15_enum_singleton_declared :
+  forall (order : schedule) (ptr : N) (mods : list (path * gmodule)) (st0 st : sstate)
+      (files : list (string * Sexp.sexp)) (p : path) (it0 : item) (gd : gitemdef) 
+      (ed0 : genumdef),
+    WholeBuild.input_state ptr mods = Ok st0 ->
+    NoDup (map fst mods) ->
+    WholeBuild.collision_free (st_reg st0) ->
+    EmitFinal.keeps_work order ->
+    pyxis_resolve order ptr mods = BOk st ->
+    Emit.write_all st = Ok files ->
+    reg_get (st_reg st0) p = Some it0 ->
+    it_state it0 = Unresolved gd ->
+    gi_inner gd = GIEnum ed0 ->
+    path_parent p <> Some [] ->
+    exists
+      (parent : path) (name : string) (it : item) (r : resolved) (f : Sexp.sexp) 
+    (pre : list Sexp.sexp) (e : Sexp.sexp) (sing post : list Sexp.sexp),
+      path_parent p = Some parent /\
+      path_last p = Some name /\
+      reg_get (st_reg st) p = Some it /\
+      it_state it = Resolved r /\
+      In (Emit.out_path parent, f) files /\
+      EmitReaders.file_items f = Some (pre ++ (e :: Emit.size_check name (rs_size r) ++ sing) ++ post) /\
+      EmitMarkersEnum.find_enum name (pre ++ (e :: Emit.size_check name (rs_size r) ++ sing) ++ post) =
+      Some e /\
+      match EmitAccessors.declared_singleton (ged_attrs ed0) with
+      | Some A =>
+          (0 <= A)%Z /\
+          (exists im : Sexp.sexp,
+             sing = [im] /\
+             im = EmitAccessors.enum_singleton_impl name (gi_vis gd) (Z.to_N A) /\
+             EmitFnShape.enum_singleton_shape name (gi_vis gd) (Z.to_N A) im)
+      | None => sing = []
+      end.
+Proof. exact EmitAccessors.C15_enum_singleton_declared. Qed.
+Print Assumptions C15_enum_singleton_declared.
+
+Theorem C15_enum_singleton_get :
+  forall (order : schedule) (ptr : N) (mods : list (path * gmodule)) (st0 st : sstate)
+      (files : list (string * Sexp.sexp)) (p : path) (it0 : item) (gd : gitemdef) 
+      (ed0 : genumdef) (A : Z),
+    WholeBuild.input_state ptr mods = Ok st0 ->
+    NoDup (map fst mods) ->
+    WholeBuild.collision_free (st_reg st0) ->
+    EmitFinal.keeps_work order ->
+    pyxis_resolve order ptr mods = BOk st ->
+    Emit.write_all st = Ok files ->
+    reg_get (st_reg st0) p = Some it0 ->
+    it_state it0 = Unresolved gd ->
+    gi_inner gd = GIEnum ed0 ->
+    path_parent p <> Some [] ->
+    EmitAccessors.declared_singleton (ged_attrs ed0) = Some A ->
+    exists (parent : path) (name : string) (f : Sexp.sexp) (items : list Sexp.sexp) 
+    (e g : Sexp.sexp),
+      path_parent p = Some parent /\
+      path_last p = Some name /\
+      In (Emit.out_path parent, f) files /\
+      EmitReaders.file_items f = Some items /\
+      In e items /\
+      EmitReaders.item_kind e = Some "impl"%string /\
+      EmitFnReaders.inherent_impl e = Some (name, [g]) /\
+      EmitReaders.item_kind g = Some "fn"%string /\
+      EmitFnReaders.fn_name g = Some "get"%string /\
+      EmitFnReaders.fn_vis g = Some (gi_vis gd) /\
+      EmitFnReaders.fn_unsafe g = Some true /\
+      EmitFnReaders.fn_params g = Some [] /\
+      EmitFnReaders.fn_ret g = Some [Sexp.Atom "Self"] /\
+      EmitFnReaders.fn_body g =
+      Some
+        [Emit.tk "unsafe";
+         Emit.brace
+           [Emit.paren
+              ([Emit.tint (Z.to_N A) "-"] ++
+               Emit.tks ["as"%string; "*"%string; "const"%string; "Self"%string]); 
+            Emit.tk "."; Emit.tk "read"; Emit.paren []]] /\
+      (0 <= A)%Z /\
+      EmitFnShape.fn_enum_singleton_addr g = Some (Z.to_N A) /\
+      (forall mem : N -> N, EmitAccessors.enum_get_result mem g = Some (mem (Z.to_N A))).
+Proof. exact EmitAccessors.C15_enum_singleton_get. Qed.
+Print Assumptions C15_enum_singleton_get.
+
+Theorem C15_enum_singleton_exactly_once :
+  forall (order : schedule) (ptr : N) (mods : list (path * gmodule)) (st0 st : sstate)
+      (files : list (string * Sexp.sexp)) (p : path) (it0 : item) (gd : gitemdef) 
+      (ed0 : genumdef),
+    WholeBuild.input_state ptr mods = Ok st0 ->
+    NoDup (map fst mods) ->
+    WholeBuild.collision_free (st_reg st0) ->
+    EmitFinal.keeps_work order ->
+    pyxis_resolve order ptr mods = BOk st ->
+    Emit.write_all st = Ok files ->
+    reg_get (st_reg st0) p = Some it0 ->
+    it_state it0 = Unresolved gd ->
+    gi_inner gd = GIEnum ed0 ->
+    path_parent p <> Some [] ->
+    exists
+      (parent : path) (name : string) (it : item) (r : resolved) (f : Sexp.sexp) 
+    (pre : list Sexp.sexp) (e : Sexp.sexp) (sing post : list Sexp.sexp),
+      path_parent p = Some parent /\
+      path_last p = Some name /\
+      reg_get (st_reg st) p = Some it /\
+      it_state it = Resolved r /\
+      In (Emit.out_path parent, f) files /\
+      EmitReaders.file_items f = Some (pre ++ (e :: Emit.size_check name (rs_size r) ++ sing) ++ post) /\
+      EmitMarkersEnum.find_enum name (pre ++ (e :: Emit.size_check name (rs_size r) ++ sing) ++ post) =
+      Some e /\
+      Forall (fun x : Sexp.sexp => EmitSingletonOnce.impl_named name x = false) pre /\
+      Forall (fun x : Sexp.sexp => EmitSingletonOnce.impl_named name x = false) post /\
+      match EmitAccessors.declared_singleton (ged_attrs ed0) with
+      | Some A =>
+          (0 <= A)%Z /\
+          (exists im : Sexp.sexp,
+             sing = [im] /\
+             im = EmitAccessors.enum_singleton_impl name (gi_vis gd) (Z.to_N A) /\
+             EmitFnShape.enum_singleton_shape name (gi_vis gd) (Z.to_N A) im)
+      | None => sing = []
+      end /\
+      EmitSingletonOnce.file_enum_singleton_addrs name f =
+      match EmitAccessors.declared_singleton (ged_attrs ed0) with
+      | Some A => [Z.to_N A]
+      | None => []
+      end /\ EmitSingletonOnce.file_singleton_addrs name f = [].
+Proof. exact EmitSingletonOnce.C15_enum_singleton_exactly_once. Qed.
+Print Assumptions C15_enum_singleton_exactly_once.
+
+Theorem C15_negative_singleton_rejected :
+  forall (order : schedule) (ptr : N) (mods : list (path * gmodule)) (st0 : sstate) 
+      (k : path) (gm : gmodule) (d : gitemdef) (z : Z),
+    WholeBuild.input_state ptr mods = Ok st0 ->
+    NoDup (map fst mods) ->
+    WholeBuild.collision_free (st_reg st0) ->
+    EmitFinal.keeps_work order ->
+    In (k, gm) mods ->
+    In d (gm_defs gm) ->
+    In (AFn "singleton" [EInt z])
+      match gi_inner d with
+      | GIType td0 => gt_attrs td0
+      | GIEnum ed0 => ged_attrs ed0
+      end -> (z < 0)%Z -> forall st : sstate, pyxis_resolve order ptr mods <> BOk st.
+Proof. exact EmitAccessors.negative_singleton_rejected_build. Qed.
+Print Assumptions C15_negative_singleton_rejected.
+
+Theorem C15_extern_accessor_of_declaration :
+  forall (order : schedule) (ptr : N) (mods : list (path * gmodule)) (st0 st : sstate)
+      (files : list (string * Sexp.sexp)) (k : path) (gm : gmodule) (gev : gexternvalue),
+    WholeBuild.input_state ptr mods = Ok st0 ->
+    NoDup (map fst mods) ->
+    WholeBuild.collision_free (st_reg st0) ->
+    EmitFinal.keeps_work order ->
+    pyxis_resolve order ptr mods = BOk st ->
+    Emit.write_all st = Ok files ->
+    In (k, gm) mods ->
+    k <> [] ->
+    In gev (gm_extern_values gm) ->
+    exists (f : Sexp.sexp) (items : list Sexp.sexp) (e : Sexp.sexp) (A : Z) 
+    (ty : stype),
+      In (Emit.out_path k, f) files /\
+      EmitReaders.file_items f = Some items /\
+      In e items /\
+      EmitExternOnce.declared_ev_address (gev_attrs gev) = Some A /\
+      (0 <= A)%Z /\
+      resolve_gtype (st_reg st) (k :: gm_uses gm) (gev_type gev) = Some ty /\
+      EmitReaders.item_kind e = Some "fn"%string /\
+      EmitFnReaders.fn_name e = Some ("get_" +++ gev_name gev) /\
+      EmitFnReaders.fn_vis e = Some (gev_vis gev) /\
+      EmitFnReaders.fn_unsafe e = Some true /\
+      EmitFnReaders.fn_params e = Some [] /\
+      EmitFnShape.fn_ret_static_mut e = Some (Emit.type_tokens ty) /\
+      EmitFnShape.fn_extern_target e = Some (Z.to_N A, Emit.type_tokens ty) /\
+      EmitExternOnce.extern_get_result e = Some (Z.to_N A).
+Proof. exact EmitExternOnce.C15_extern_accessor_of_declaration. Qed.
+Print Assumptions C15_extern_accessor_of_declaration.
+
+Theorem C15_extern_without_address_rejected_build :
+  forall (order : schedule) (ptr : N) (mods : list (path * gmodule)) (k : path) 
+      (gm : gmodule) (gev : gexternvalue),
+    In (k, gm) mods ->
+    In gev (gm_extern_values gm) ->
+    EmitExternOnce.declared_ev_address (gev_attrs gev) = None ->
+    exists msg : string,
+      WholeBuild.input_state ptr mods = Err msg /\ pyxis_resolve order ptr mods = BErr msg.
+Proof. exact EmitExternOnce.extern_without_address_rejected. Qed.
+Print Assumptions C15_extern_without_address_rejected_build.
